@@ -4,6 +4,7 @@
    index and the id of its predecessor).
 
    After every step, for all voters whose store could be read:
+     readable   the store answers Load (a store that reports a corrupt frontier is a violation);  (code 1)
      chain      the log is an unbroken predecessor hash chain from genesis: entry k sits at
                 index k and names entry k-1 as predecessor;                              (code 1)
      bounds     committed <= log end;                                                     (code 1)
@@ -77,7 +78,7 @@ Definition c02_check (cfg : qconfig) (tab : list ent) (st : c02_state) (prev ful
   let vs := voters_of cfg in
   let local_ok :=
     forallb (fun v => let o := get_robs full v in let o0 := get_robs prev v in
-               obs_chain_ok tab o && (ro_err o || (ro_hw o <=? ro_leo o)) &&
+               negb (ro_err o) && obs_chain_ok tab o && (ro_hw o <=? ro_leo o) &&
                (ro_err o || ro_err o0 || (ro_hw o0 <=? ro_hw o))) vs in
   if negb local_ok then 1
   else all_pairs_agreement (cb_k1 st) (map (get_robs full) vs).
